@@ -20,8 +20,27 @@ func c10Alphabet(thorough bool) []string {
 	return a
 }
 
+// Early registry entries: a peer may subscribe (its node management to ours) before its detailed discovery
+// has arrived — the repository's own TestSubscriptionRequestCall_BeforeDetailedDiscovery does. Every history
+// starts with both peers connected and not yet discovered.
+var c10EarlyPrelude = []string{"disc:A", "disc:B", "reconn0:A", "reconn0:B"}
+
+func c10EarlyAlphabet(thorough bool) []string {
+	a := []string{"sub:A:nm:Lnm:nm:d", "sub:B:nm:Lnm:nm:d", "sub:A:nm:Lnm:nm:n", "ann:A", "ann:B", "disc:A", "disc:B", "reconn0:A", "reconn0:B",
+		"unsub:A:nm:Lnm:d", "sub:A:e1f1:L1lc:lc:d", "sub:B:e1f1:L1lc:lc:d", "entrm:A:1"}
+	if thorough {
+		a = append(a, "unsub:B:nm:Lnm:n", "reconn:A", "reconn:B", "bind:A:e1f1:L1lc:lc:d", "set:L1lc:2", "entrm:B:1")
+	}
+	return a
+}
+
 func c10Drivers(thorough bool) []*engine.HDriver {
-	return []*engine.HDriver{regDriver("teardown", c10Alphabet(thorough), true, true, nil)}
+	early := regDriver("teardown-before-discovery", c10EarlyAlphabet(thorough), true, false, nil)
+	step := early.Step
+	early.Step = func(hist []string, op string) engine.HStep {
+		return step(append(append([]string{}, c10EarlyPrelude...), hist...), op)
+	}
+	return []*engine.HDriver{regDriver("teardown", c10Alphabet(thorough), true, true, nil), early}
 }
 
 func init() {
